@@ -136,6 +136,19 @@ ROUND8 = {
 }
 
 
+ROUND9 = {
+    'C06': 'no case folding in TLS decoders and their helpers; code point wrappers tabulated over every code of the width (an escaping exception is a finding); no quiet return while a positive number of octets of an optional trailing block is unread',
+    'C07': 'no de-duplication (set / mapping round trip, membership-guarded append) in SSH composers',
+    'C09': 'OpenVPN parse_header evaluated for the eight key ids of every opcode and for the sibling opcodes; flag collections followed back to the attribute',
+    'C10': 'no de-duplication on the writing side; GREASE wrapper tabulation reports codes it cannot be built for',
+    'C11': 'collection handed to compose_numeric_flags followed back through locals and helpers: nothing added on the way',
+    'C14': 'no de-duplication in renderings',
+    'C15': 'extension block read whenever anything is left of the hello body',
+    'C16': 'no de-duplication on the way to HASSH / fingerprints',
+    'C18': 'every parse_string_array call of the header / policy record modules passes skip_empty=True',
+}
+
+
 def built():
     out = []
     for pid in sorted(P):
@@ -156,6 +169,8 @@ def main():
             tech = tech + '; ' + ROUND7[pid]
         if pid in ROUND8:
             tech = tech + '; ' + ROUND8[pid]
+        if pid in ROUND9:
+            tech = tech + '; ' + ROUND9[pid]
         checks.append({
             'property_id': pid,
             'quick_cmd': 'python3 -m sa.check %s --tier quick' % pid,
